@@ -57,6 +57,10 @@ MApply(s, o) ==
     [] o.a = "upd_weight" -> Ok([s EXCEPT !.w = Masked(Add(s.w, Sub(o.p, o.n)))])
     [] o.a = "upd_delay" -> Ok([s EXCEPT !.d = Masked(Add(s.d, Sub(o.p, o.n)))])
     [] o.a = "upd_all" -> Ok([w |-> Masked(Add(s.w, Sub(o.p, o.n))), d |-> Masked(Add(s.d, o.p)), b |-> VAdd(s.b, o.v)])
+    \* augmented assignment `conn.weight += v`: the stored parameter is modified in place and the SAME object is
+    \* assigned back through the setter, which masks it like any other value
+    [] o.a = "iadd_weight" -> Ok([s EXCEPT !.w = Masked(Add(s.w, Const(o.k)))])
+    [] o.a = "iadd_delay" -> Ok([s EXCEPT !.d = Masked(Add(s.d, Const(o.k)))])
 
 AApply(s, o) ==
   CASE o.a = "set_weight" -> Ok([s EXCEPT !.w = OffDiag(o.m)])
@@ -65,6 +69,8 @@ AApply(s, o) ==
     [] o.a = "upd_weight" -> Ok([s EXCEPT !.w = OffDiag(Add(s.w, Sub(o.p, o.n)))])
     [] o.a = "upd_delay" -> Ok([s EXCEPT !.d = OffDiag(Add(s.d, Sub(o.p, o.n)))])
     [] o.a = "upd_all" -> Ok([w |-> OffDiag(Add(s.w, Sub(o.p, o.n))), d |-> OffDiag(Add(s.d, o.p)), b |-> VAdd(s.b, o.v)])
+    [] o.a = "iadd_weight" -> Ok([s EXCEPT !.w = OffDiag(Add(s.w, Const(o.k)))])
+    [] o.a = "iadd_delay" -> Ok([s EXCEPT !.d = OffDiag(Add(s.d, Const(o.k)))])
 
 Ops(s) ==
   {[a |-> "set_weight", m |-> m] : m \in Mats}
@@ -73,6 +79,7 @@ Ops(s) ==
   \cup {[a |-> "upd_weight", p |-> p, n |-> n] : p \in {Tok, Const(1), Diag(1)}, n \in {Zero, Const(1), Diag(2)}}
   \cup {[a |-> "upd_delay", p |-> p, n |-> Zero] : p \in {Const(1), Diag(1)}}
   \cup {[a |-> "upd_all", p |-> p, n |-> Zero, v |-> v] : p \in {Const(1), Diag(1)}, v \in {[i \in I |-> 1]}}
+  \cup {[a |-> x, k |-> 1] : x \in {"iadd_weight", "iadd_delay"}}
 
 Init == st = [w |-> Masked(Named(InitW)), d |-> Masked(Named(InitD)), b |-> [i \in I |-> i]]
 Next == \E o \in Ops(st) : \E mo \in MApply(st, o) : st' = mo.st
@@ -84,8 +91,8 @@ DiagZero == \A i \in I : st.w[i][i] = 0 /\ st.d[i][i] = 0
 Refinement == \A o \in Ops(st) : MApply(st, o) = AApply(st, o)
 \* the mask never touches the bias, weight/delay assignments leave the other parameters alone
 Frame == \A o \in Ops(st) : \A mo \in MApply(st, o) :
-           /\ (o.a \in {"set_weight", "upd_weight"} => mo.st.d = st.d /\ mo.st.b = st.b)
-           /\ (o.a \in {"set_delay", "upd_delay"} => mo.st.w = st.w /\ mo.st.b = st.b)
+           /\ (o.a \in {"set_weight", "upd_weight", "iadd_weight"} => mo.st.d = st.d /\ mo.st.b = st.b)
+           /\ (o.a \in {"set_delay", "upd_delay", "iadd_delay"} => mo.st.w = st.w /\ mo.st.b = st.b)
            /\ (o.a = "set_bias" => mo.st.b = o.v /\ mo.st.w = st.w /\ mo.st.d = st.d)
 
 Emit == Bounded => PrintT(ToJson([s |-> st, out |-> {[op |-> o, res |-> MApply(st, o)] : o \in Ops(st)}]))
